@@ -457,6 +457,11 @@ def _companions(ctx):
                     okb = not conds and it_ is ts and elt is T(
                         "binop", "Sub", T("elem", ts, lid),
                         tm.sub(ts, const(0)))
+                else:
+                    # vectorised spelling: timestamps - timestamps[0]
+                    ts = tm.attr(o_est, "timestamps")
+                    okb = base is T("binop", "Sub", ts,
+                                    tm.sub(ts, const(0)))
             else:
                 okb = base is srcs[n]
             oks = sl is want_slice if want_slice is not None else sl is None
